@@ -4,7 +4,8 @@ import lib
 from gen import domgen as D
 from props import xmlcommon as X
 
-QUERIES = "//*;//@*;//comment();//processing-instruction();string(/);count(//*);(//*|//@*)[2];//*[last()];//*/@*[1]"
+# node-set and count queries only: in the raw view a string value depends on whether `>` was written as `&gt;` (after `]]`)
+QUERIES = "//*;//@*;//comment();//processing-instruction();count(//comment() | //processing-instruction());count(//*);(//*|//@*)[2];//*[last()];//*/@*[1]"
 
 
 def histories(rng, n, max_ops, hostile):
